@@ -185,8 +185,8 @@ func spzDecode(c *run.Ctx) (res run.Result) {
 	if gzHeader {
 		res.Count("spz/streams_with_optional_gzip_header_fields", 1)
 	}
-	if c.Case < 16 && n <= 2 {
-		res.Sample = map[string]any{"version": version, "sh_degree": deg, "fractional_bits": fb, "points": n, "gzip_level": level, "gzip_bytes": len(data), "point0": fmt.Sprintf("%+v", s.Point(0))}
+	if c.Case < 2 {
+		res.Sample = map[string]any{"version": version, "sh_degree": deg, "fractional_bits": fb, "points": n, "gzip_level": level, "gzip_bytes": len(data), "point_0_dequantised": fmt.Sprintf("%+v", s.Point(0))}
 	}
 	return
 }
